@@ -2,7 +2,9 @@
 import itertools
 import re
 
-from harness import core
+import os
+
+from harness import core, tb2v
 
 ID = 'C37'
 TITLE = 'Text patches map back to the right source positions'
@@ -13,10 +15,17 @@ RULE = ('random nestings (depth <= 3) of Text / Replacer / Combiner over short t
         'old_text, out-of-range and negative positions); queries = output ranges incl. ranges ending at every '
         'offset-table entry, at part boundaries, empty ranges, whole text, wrong old_text, out of range; '
         'thorough adds every range of every builder and an exhaustive space of single Replacers over a 4-char text; '
+        'translation check: each generated function on random texts/patch sets/positions incl. ranges ending at '
+        'offset-table entries, with stub builders around it; '
         'a case is non-trivial when the builder holds a length-changing patch or a Combiner of >= 2 parts and at '
         'least one query was mapped back to a Text')
-TRUSTED = ['Model/TextBuilder.v: hand-written model of textbuilder.py (Text, Replacer incl. its offset arrays and '
-           'bisect_right, Combiner, validate_patch, make_patch, map_back_patch, get_input_pos, map_back_offset), '
+TRUSTED = ['harness/tb2v.py: fail-closed translator textbuilder.py -> coq/gen/TextBuilder_gen.v (make_patch, validate_patch, '
+           'Text.get_text/map_back_patch, Replacer.__init__/get_text/get_input_pos/map_back_patch/map_back_offset, '
+           'Combiner.__init__/get_text/map_back_patch), regenerated on every run; every translated function is run '
+           'against the running function or method on generated inputs (other builders replaced by stubs on both sides)',
+           'Model/TextBuilder.v primitives used by the generated code: Python slicing and list indexing, bisect_right '
+           '(the binary search), sorted() on patch tuples, the result monad; plus the composition of the generated '
+           'methods along the object graph (g_render/g_map_back/g_offset in Proofs/TextBuilder_bridge.v); both are '
            'compared with the real classes on every run (get_text, map_back_patch results and exceptions, '
            'map_back_offset, the _input_offsets/_output_offsets arrays)',
            're.finditer (behind make_regexp_patches) returns in-range, ordered, non-overlapping matches: monitored']
@@ -420,6 +429,7 @@ def correspond(ctx):
   for i in bad[:5]:
     ctx.broken('correspondence:Model/TextBuilder.v differs from textbuilder.py', 'case %s' % coq[i][:1500])
   monitor_regexp(ctx)
+  validate_translation(ctx)
 
 
 def monitor_regexp(ctx):
@@ -631,8 +641,9 @@ def replay(ctx, w):
   return judge(ref, q, outcome(lambda: built[1].map_back_patch(textbuilder.Patch(*q))), built[1])[1]
 
 
-TECHNIQUE = ('Coq proof over a hand-written executable model of textbuilder.py + differential cases (vm_compute) '
-             'against the real classes + provenance-tracking reference oracle on the implementation')
+TECHNIQUE = ('Coq proof over code translated from textbuilder.py on every run (tb2v), bridged pointwise to an executable '
+             'model; differential cases (vm_compute) of the translation and of the model against the real classes; '
+             'provenance-tracking reference oracle on the implementation')
 LEVEL_TEXT = ('Kernel-checked theorems for all texts, valid non-overlapping patch sets and nestings of '
               'Text/Replacer/Combiner: the Replacer text is the patches applied directly; with the proposed repair a '
               'range whose first and last characters are copied from one Text maps back to exactly their source '
@@ -640,5 +651,150 @@ LEVEL_TEXT = ('Kernel-checked theorems for all texts, valid non-overlapping patc
               'code is refuted at a deletion boundary (C37_refuted_deletion_end) and proved correct whenever no '
               'offset-table entry sits at the range end; Combiner refuses ranges spanning parts and returns None for '
               'str parts.')
-LEVEL_NOTE = ('Trusted: Coq kernel, the hand model (validated differentially each run incl. the offset arrays and '
-              'exceptions), re.finditer facts (monitored). Known finding C37-deletion-end on the unchanged source.')
+LEVEL_NOTE = ('Trusted: Coq kernel, the tb2v translator and the Python primitives it targets (slices, bisect_right, '
+              'sorted), both validated differentially each run; re.finditer facts (monitored). The bridging lemmas '
+              'C37_gen_* / C37_code_* make the theorems statements about the regenerated code. Finding '
+              'C37-deletion-end was repaired in the source (f1e7132); C37_refuted_deletion_end records the old code.')
+
+
+# ------------------------------------------------------------------------------------------------
+# the arithmetic core regenerated from the source on every run (harness/tb2v.py), and its differential check
+
+def regenerate(ctx):
+  try:
+    text = tb2v.generate(os.path.join(core.GRIST, 'textbuilder.py'))
+  except tb2v.Untranslatable as e:
+    raise core.TieBroken('textbuilder.py is outside the translated subset: %s' % e)
+  os.makedirs(os.path.join(core.COQ, 'gen'), exist_ok=True)
+  core.write_if_changed(os.path.join(core.COQ, 'gen', 'TextBuilder_gen.v'), text)
+  ctx.extra['regenerated'] = [sp.name for sp in tb2v.SPECS]
+
+
+GEN_DEFS = '''Require Import Grist.Lib.TbPrelude GristGen.TextBuilder_gen.
+Inductive tcase :=
+| TMake (t : list Z) (s e : Z) (n : list Z) (exp : patch)
+| TValidate (t : list Z) (p : patch) (exp : res unit)
+| TText (t : list Z) (v : Z) (p : patch) (exp : res mapped)
+| TInit (t : list Z) (ps : list patch) (exp : res (list Z * list Z * list Z))
+| TPos (io oo : list Z) (k exp : Z)
+| TMapBack (io oo out t : list Z) (p : patch) (exp : res mapped)
+| TOffset (io oo : list Z) (flag : bool) (k : Z) (exp : res Z)
+| TCInit (gps : list gpart) (exp : res (list Z * list Z))
+| TCMap (txt offs : list Z) (strs : list bool) (p : patch) (exp : res mapped).
+Definition unit_eqb (a b : unit) := true.
+Definition init_eqb (a b : list Z * list Z * list Z) :=
+  zlist_eqb (fst (fst a)) (fst (fst b)) && zlist_eqb (snd (fst a)) (snd (fst b)) && zlist_eqb (snd a) (snd b).
+Definition cinit_eqb (a b : list Z * list Z) := zlist_eqb (fst a) (fst b) && zlist_eqb (snd a) (snd b).
+Definition stub_part (strs : list bool) (i : Z) : gmpart :=
+  if nth (Z.to_nat i) strs true then GMStr else GMBuilder (fun q => Ok (Some ([], i, q))).
+Definition tcheck (c : tcase) : bool :=
+  match c with
+  | TMake t s e n exp => patch_eqb (gen_make_patch t s e n) exp
+  | TValidate t p exp => res_eqb unit_eqb (gen_validate_patch t p) exp
+  | TText t v p exp => res_eqb mapped_eqb (gen_text_map_back t v p) exp
+  | TInit t ps exp => res_eqb init_eqb (gen_replacer_init t ps) exp
+  | TPos io oo k exp => gen_get_input_pos io oo k =? exp
+  | TMapBack io oo out t p exp =>
+      res_eqb mapped_eqb (gen_replacer_map_back io oo out t (fun q => Ok (Some ([], 0, q))) p) exp
+  | TOffset io oo flag k exp => res_eqb Z.eqb (gen_map_back_offset io oo flag (fun x => Ok (x + 1000)) k) exp
+  | TCInit gps exp => res_eqb cinit_eqb (gen_combiner_init gps) exp
+  | TCMap txt offs strs p exp => res_eqb mapped_eqb (gen_combiner_map_back txt offs (stub_part strs) p) exp
+  end.
+'''
+
+
+def validate_translation(ctx):
+  """Every translated function against the running function / method on generated inputs.  Other builders are
+  replaced by stubs, so each method is exercised on its own (the Coq side gets the same stubs)."""
+  import textbuilder
+  rng = ctx.rng
+  P = textbuilder.Patch
+
+  class StubText(object):
+    def __init__(self, text):
+      self.text = text
+    def get_text(self):
+      return self.text
+    def map_back_patch(self, patch):
+      return ('', 0, patch)
+
+  class StubReplacer(textbuilder.Replacer):          # isinstance(.., Replacer) is what map_back_offset asks
+    def __init__(self, text):                        # pylint: disable=super-init-not-called
+      self.text = text
+    def get_text(self):
+      return self.text
+    def map_back_offset(self, out_pos):
+      return out_pos + 1000
+
+  class StubPart(object):
+    def __init__(self, text, idx):
+      self.text, self.idx = text, idx
+    def get_text(self):
+      return self.text
+    def map_back_patch(self, patch):
+      return ('', self.idx, patch)
+
+  S, Zl = core.strlit, core.zlist
+  cases = []
+  def add(kind, term, out):
+    ctx.bump('translation ' + kind)
+    if out[0] != 'other':
+      cases.append(term)
+    else:
+      ctx.bump('translation case skipped (exception outside the model)')
+  rand_patch = lambda t: (lambda s: (s, rng.randint(s, len(t) + 1), t[s:rng.randint(s, len(t) + 1)] if rng.random() < .3
+                                     else None, rand_text(rng, 0, 2)))(rng.randint(-1, len(t) + 1))
+  def some_patch(t):
+    s, e, old, new = rand_patch(t)
+    return (s, e, t[s:e] if old is None else old, new)
+  for _ in range(ctx.n(120, 1500)):
+    t = rand_text(rng, 0, 9)
+    s, e, new = rng.randint(-2, len(t) + 2), rng.randint(-2, len(t) + 2), rand_text(rng, 0, 2)
+    add('make_patch', '(TMake %s %s %s %s %s)' % (S(t), core.zlit(s), core.zlit(e), S(new),
+                                                 patch_lit(tuple(textbuilder.make_patch(t, s, e, new)))), ('ok',))
+    p = some_patch(t)
+    o = outcome(lambda: textbuilder.validate_patch(t, P(*p)))
+    add('validate_patch', '(TValidate %s %s %s)' % (S(t), patch_lit(p), res_lit(o, lambda _x: 'tt')), o)
+    o = outcome(lambda: textbuilder.Text(t, 5).map_back_patch(P(*p)))
+    add('Text.map_back_patch', '(TText %s 5%%Z %s %s)' % (S(t), patch_lit(p), res_lit(o, mapped_lit)), o)
+    # Replacer over a stub input builder
+    ps = gen_bad_patches(rng, t) if rng.random() < 0.25 else gen_patches(rng, t)
+    flag = rng.random() < 0.5
+    built = outcome(lambda: textbuilder.Replacer((StubReplacer if flag else StubText)(t), [P(*q) for q in ps]))
+    init_lit = lambda r: '(%s, %s, %s)' % (Zl(r._input_offsets), Zl(r._output_offsets), S(r._output_text))
+    add('Replacer.__init__', '(TInit %s %s %s)' % (S(t), core.coq_list([patch_lit(q) for q in ps]),
+                                                  res_lit(built, init_lit)), built)
+    if built[0] == 'ok':
+      r = built[1]
+      io, oo, out = Zl(r._input_offsets), Zl(r._output_offsets), r._output_text
+      for k in sorted(set([rng.randint(0, len(out) + 1) for _ in range(3)] + r._output_offsets)):
+        add('get_input_pos', '(TPos %s %s %s %s)' % (io, oo, core.zlit(k), core.zlit(r.get_input_pos(k))), ('ok',))
+        o = outcome(lambda: r.map_back_offset(k))
+        add('map_back_offset', '(TOffset %s %s %s %s %s)' % (io, oo, core.boollit(flag), core.zlit(k),
+                                                             res_lit(o, core.zlit)), o)
+      if not flag:
+        for _k in range(4):
+          q = some_patch(out)
+          if rng.random() < 0.5 and r._output_offsets[1:]:
+            m = rng.choice(r._output_offsets[1:])             # a range ending at an offset-table entry
+            if 0 < m <= len(out):
+              s0 = rng.randint(0, m - 1)
+              q = (s0, m, out[s0:m], 'z')
+          o = outcome(lambda: r.map_back_patch(P(*q)))
+          add('Replacer.map_back_patch', '(TMapBack %s %s %s %s %s %s)' % (
+            io, oo, S(out), S(t), patch_lit(q), res_lit(o, mapped_lit)), o)
+    # Combiner over str parts and stub builders
+    parts = [rand_text(rng, 0, 3) if rng.random() < 0.5 else StubPart(rand_text(rng, 0, 4), i)
+             for i in range(rng.randint(0, 4))]
+    c = textbuilder.Combiner(parts)
+    gps = core.coq_list(['(GStr %s)' % S(x) if isinstance(x, str) else '(GBuilder %s)' % S(x.text) for x in parts])
+    add('Combiner.__init__', '(TCInit %s (Ok (%s, %s)))' % (gps, Zl(c._offsets), S(c._text)), ('ok',))
+    for _k in range(4):
+      q = some_patch(c._text)
+      o = outcome(lambda: c.map_back_patch(P(*q)))
+      add('Combiner.map_back_patch', '(TCMap %s %s %s %s %s)' % (
+        S(c._text), Zl(c._offsets), core.coq_list([core.boollit(isinstance(x, str)) for x in parts]),
+        patch_lit(q), res_lit(o, mapped_lit)), o)
+  bad = ctx.run_cases('gen', ['Grist.Model.TextBuilder'], 'tcheck', cases, shard=400, extra_defs=GEN_DEFS)
+  for i in bad[:5]:
+    ctx.broken('translation:code generated by tb2v differs from the running textbuilder.py', cases[i][:1200])
